@@ -145,10 +145,13 @@ Proof.
     destruct (negb _); [injection H as <-; left; reflexivity|].
     destruct (selection_array R C (flattenF (c_wells a))) as [sel|]; [|injection H as <-; left; reflexivity].
     destruct (2 <=? _)%nat; [injection H as <-; left; reflexivity|discriminate].
-  - injection H as <-. destruct (c_volume a) as [v|l|].
+  - injection H as <-. destruct (c_volume a) as [v|l|l|].
     + destruct (check_volume v (Some m)) as [q|e1] eqn:E1; [discriminate|]. injection Ev as <-.
       eapply check_volume_err2. exact E1.
     + destruct (check_volumes l m) as [qs|e1] eqn:E1.
+      * destruct (length qs =? _)%nat; [discriminate|]. injection Ev as <-. left. reflexivity.
+      * injection Ev as <-. eapply check_volumes_err. exact E1.
+    + destruct (check_volumes (int_pvols l) m) as [qs|e1] eqn:E1.
       * destruct (length qs =? _)%nat; [discriminate|]. injection Ev as <-. left. reflexivity.
       * injection Ev as <-. eapply check_volumes_err. exact E1.
     + injection Ev as <-. left. reflexivity.
